@@ -28,7 +28,7 @@ From Soy Require Import Model.Bytes Model.Num Model.Values Model.Outcome Model.A
   Model.Escape Model.Token Model.ExprParser Model.ExprTrans Spec.Expr Spec.ExprSyntax Generated.Tables
   Proofs.EvalProofs Proofs.EvalFuncProofs Proofs.EvalMainProofs Proofs.ExprParserRules Proofs.ExprParserProofs Proofs.EvalSyntaxProofs Proofs.EvalTotalProofs.
 From Soy Require Import Model.AstPrint Model.Lexer Model.Parser Proofs.LexPrintMain Proofs.LexParseText Proofs.EvalTextProofs Proofs.InterpPos.
-From Soy Require Proofs.FloatRoundSpec Proofs.FloatFlocq Proofs.FloatRtMain Proofs.FloatRtPrint.
+From Soy Require Proofs.FloatRoundSpec Proofs.FloatFlocq Proofs.FloatFlocqDiv Proofs.FloatRtMain Proofs.FloatRtPrint.
 Open Scope N_scope.
 
 (* ---- the evaluator ---- *)
@@ -270,10 +270,16 @@ Print Assumptions C01_round_nearest_even.
 (* the same against Flocq (a statement over the reals: Print Assumptions lists the axioms of Coq's Reals and
    Classical_Prop.classic, nothing of Flocq's own): round53 is round radix2 (FLX_exp 53) ZnearestE, and the results of
    fl_add_r, fl_sub_r, fl_mul_r, fl_of_int are that rounding of the exact sum, difference, product, integer
-   (FloatFlocq.ff_correctly_rounded spells the five statements out); fl_div_r's sticky bit is not covered *)
+   (FloatFlocq.ff_correctly_rounded spells the five statements out) *)
 Theorem C01_float_ops_correctly_rounded : FloatFlocq.ff_correctly_rounded.
 Proof. exact FloatFlocq.ff_correctly_rounded_holds. Qed.
 Print Assumptions C01_float_ops_correctly_rounded.
+
+(* and fl_div_r -- the quotient to 56 or more bits with a sticky bit for the remainder, then round53 -- is that rounding of
+   the exact quotient (FloatFlocqDiv.v, through Flocq's Fdiv_core: mantissas non-zero, as in every FFin of the model) *)
+Theorem C01_float_div_correctly_rounded : FloatFlocqDiv.ff_div_correctly_rounded.
+Proof. exact FloatFlocqDiv.ff_div_correctly_rounded_holds. Qed.
+Print Assumptions C01_float_div_correctly_rounded.
 
 (* strconv 'g' -1 (Num.fl_to_string) answers on every float of the model, and strconv.ParseFloat's correctly rounded
    conversion (NumLit.parse_float_round) reads the text back as the same float: no float hypothesis is left in
